@@ -52,7 +52,14 @@ Lemma w_ohex w k o : ou64b o = true -> widths w k (jopt (jhex w) o) = true.
 Proof. destruct o; [apply w_hex|reflexivity]. Qed.
 Lemma w_obj w k l : Forall (fun kv => widths w (fst kv) (snd kv) = true) l -> widths w k (JObj l) = true.
 Proof.
-  intro H. cbn [widths]. apply forallb_forall. rewrite Forall_forall in H. intros [k' v'] Hin. exact (H _ Hin).
+  intro H. cbn [widths]. apply forallb_forall. rewrite Forall_forall in H. intros [k' v'] Hin.
+  destruct (list_eqb k' k_soft_errors); [reflexivity|exact (H _ Hin)].
+Qed.
+Lemma w_obj_soft w k l : Forall (fun kv => fst kv = k_soft_errors \/ widths w (fst kv) (snd kv) = true) l -> widths w k (JObj l) = true.
+Proof.
+  intro H. cbn [widths]. apply forallb_forall. rewrite Forall_forall in H. intros [k' v'] Hin.
+  destruct (H _ Hin) as [E|E]; cbn [fst snd] in E; [subst k'; reflexivity|].
+  destruct (list_eqb k' k_soft_errors); [reflexivity|exact E].
 Qed.
 Lemma w_arr_map {A} w k (f : A -> json) l : (forall a, In a l -> widths w k (f a) = true) -> widths w k (JArr (map f l)) = true.
 Proof.
@@ -94,7 +101,7 @@ Lemma registers_widths w k regs : regs_named_ok regs = true -> widths w k (json_
 Proof.
   intro H. unfold json_registers. cbn [widths]. apply forallb_forall. intros [k' v'] Hin. apply in_map_iff in Hin.
   destruct Hin as (r & E & Hr). inversion E; subst. unfold regs_named_ok in H. rewrite forallb_forall in H. specialize (H r Hr).
-  cbn [widths]. apply negb_true_iff in H. rewrite H. reflexivity.
+  cbn [widths]. apply negb_true_iff in H. rewrite H. destruct (list_eqb (fst (fst r)) k_soft_errors); reflexivity.
 Qed.
 
 Lemma frames_w w l : forallb wf_frame l = true -> forall idx,
@@ -162,10 +169,10 @@ Proof.
 Qed.
 
 Lemma tail_w s : wf_state s = true ->
-  Forall (fun kv => widths (s_width s) (fst kv) (snd kv) = true) (tail_obj s).
+  Forall (fun kv => fst kv = k_soft_errors \/ widths (s_width s) (fst kv) (snd kv) = true) (tail_obj s).
 Proof.
   intro Hw. unfold wf_state in Hw. splitb. unfold tail_obj. cbv zeta.
-  repeat (apply Forall_cons || apply Forall_nil); cbn [fst snd]; try wleaf.
+  repeat (apply Forall_cons || apply Forall_nil); cbn [fst snd]; try (left; reflexivity); right; try wleaf.
   - destruct (s_handles s) as [l|]; [|reflexivity]. cbn [jopt]. apply w_arr_map. intros h _. unfold json_of_handle. wobj; wleaf.
   - destruct (s_lsb s) as [[[[i r] c] d]|]; [|reflexivity]. cbn [jopt]. wobj; wleaf.
   - destruct (s_mac_crash s) as [l|]; [|reflexivity]. cbn [jopt]. splitb. wobj; try wleaf.
@@ -192,8 +199,8 @@ Proof.
   unfold report_obj. destruct (s_requesting s) as [i|] eqn:Er.
   - destruct (nth_error (s_threads s) i) as [t|] eqn:Et; [|reflexivity].
     destruct (th_frames t) as [|f0 fs] eqn:Ef.
-    + apply w_obj. constructor; [exact Hci|exact T].
-    + apply w_obj. constructor; [exact Hci|]. constructor; [|exact T]. cbn [fst snd]. apply cthread_w; [|exact Hr].
+    + apply w_obj_soft. constructor; [right; exact Hci|exact T].
+    + apply w_obj_soft. constructor; [right; exact Hci|]. constructor; [|exact T]. right. cbn [fst snd]. apply cthread_w; [|exact Hr].
       match goal with H : forallb wf_thread _ = true |- _ => rewrite forallb_forall in H; apply H end. eapply nth_error_In; exact Et.
-  - apply w_obj. constructor; [exact Hci|exact T].
+  - apply w_obj_soft. constructor; [right; exact Hci|exact T].
 Qed.
